@@ -547,3 +547,138 @@ Qed.
 (* the checker's model column is the nearest reported centre of every row *)
 Lemma nearest_rows_spec rows : nearest_rows rows = map argmin rows.
 Proof. reflexivity. Qed.
+
+(* ================= degenerate patches in the guard ================= *)
+Lemma Qleb_ext a b c d : (a <= b <-> c <= d) -> Qleb a b = Qleb c d.
+Proof.
+  intros H. destruct (Qleb a b) eqn:E1, (Qleb c d) eqn:E2; try reflexivity.
+  - apply Qleb_le in E1. apply H in E1. apply Qleb_le in E1. congruence.
+  - apply Qleb_le in E2. apply H in E2. apply Qleb_le in E2. congruence.
+Qed.
+
+Lemma Qeqb_eq a b : Qeqb a b = true <-> a == b.
+Proof. apply Qeq_bool_iff. Qed.
+
+(* a zero radius with a positive distance is refused - whatever rtol is *)
+Theorem patch_refused_zero_radius d r rtol : r == 0 -> 0 < d -> patch_refused d r rtol = true.
+Proof.
+  intros Hr Hd. unfold patch_refused. apply negb_true_iff.
+  destruct (Qleb d (rtol * r)) eqn:E; [|reflexivity].
+  apply Qleb_le in E. rewrite Hr, Qmult_0_r in E. exfalso. exact (Qlt_not_le _ _ Hd E).
+Qed.
+
+(* coinciding centres are accepted on a zero radius (0 / 0 = nan, nan > rtol is False) *)
+Theorem patch_accepted_coinciding d r rtol : d == 0 -> r == 0 -> patch_refused d r rtol = false.
+Proof.
+  intros Hd Hr. unfold patch_refused. apply negb_false_iff. apply Qleb_le.
+  rewrite Hd, Hr, Qmult_0_r. apply Qle_refl.
+Qed.
+
+Lemma quotient_le_iff d r rtol : 0 < r -> (d / r <= rtol <-> d <= rtol * r).
+Proof.
+  intros Hr. split; intro H.
+  - assert (E : d == d / r * r) by (field; intro C; rewrite C in Hr; exact (Qlt_irrefl _ Hr)).
+    rewrite E. apply Qmult_le_compat_r; [exact H|apply Qlt_le_weak; exact Hr].
+  - apply Qle_shift_div_r; assumption.
+Qed.
+
+(* the division-free form is what the float expression  distance / radius > rtol  decides, degenerate radii included *)
+Theorem patch_refused_ieee_eq d r rtol : 0 <= d -> 0 <= r -> patch_refused_ieee d r rtol = patch_refused d r rtol.
+Proof.
+  intros Hd Hr. unfold patch_refused_ieee, fdiv.
+  destruct (Qeqb r 0) eqn:Er.
+  - apply Qeqb_eq in Er. destruct (Qeqb d 0) eqn:Ed.
+    + apply Qeqb_eq in Ed. simpl. symmetry. apply patch_accepted_coinciding; assumption.
+    + simpl. symmetry. apply patch_refused_zero_radius; [exact Er|].
+      apply Qle_lt_or_eq in Hd as [Hd|Hd]; [exact Hd|].
+      exfalso. assert (C : Qeqb d 0 = true) by (apply Qeqb_eq; symmetry; exact Hd). congruence.
+  - simpl. unfold patch_refused. f_equal. apply Qleb_ext. apply quotient_le_iff.
+    apply Qle_lt_or_eq in Hr as [Hr|Hr]; [exact Hr|].
+    exfalso. assert (C : Qeqb r 0 = true) by (apply Qeqb_eq; symmetry; exact Hr). congruence.
+Qed.
+
+(* on a proper patch (radius > 0) the zero-defined quotient decides the same - which is why no scene made of
+   proper patches can tell the two apart *)
+Theorem patch_refused_div0_proper d r rtol : 0 < r -> patch_refused_div0 d r rtol = patch_refused d r rtol.
+Proof.
+  intros Hr. unfold patch_refused_div0, patch_refused, qdiv0.
+  destruct (Qeqb r 0) eqn:Er.
+  - apply Qeqb_eq in Er. rewrite Er in Hr. exfalso. exact (Qlt_irrefl _ Hr).
+  - f_equal. apply Qleb_ext. apply quotient_le_iff. exact Hr.
+Qed.
+
+(* Coq's own division is the zero-defined one: a model written with  d / r  in Q would be the refuted reading *)
+Theorem qdiv0_is_Qdiv d r : qdiv0 d r == d / r.
+Proof.
+  unfold qdiv0. destruct (Qeqb r 0) eqn:Er; [|reflexivity].
+  apply Qeqb_eq in Er. rewrite Er. unfold Qdiv. change (/ 0) with 0. rewrite Qmult_0_r. reflexivity.
+Qed.
+
+(* ... and it exempts every zero-radius patch: any displacement is let through when rtol >= 0 *)
+Theorem patch_refused_div0_zero_radius d r rtol : r == 0 -> 0 <= rtol -> patch_refused_div0 d r rtol = false.
+Proof.
+  intros Hr H0. unfold patch_refused_div0, qdiv0.
+  assert (E : Qeqb r 0 = true) by (apply Qeqb_eq; exact Hr). rewrite E.
+  apply negb_false_iff. apply Qleb_le. exact H0.
+Qed.
+
+(* refutation: with the zero-defined quotient the guard accepts two catalogs although the centres of a patch lie
+   farther apart than the patch radius (statement violated), where the division-free guard refuses *)
+Theorem quotient_zero_refuted :
+  exists (dists radii : list Q) (d r : Q),
+    In (d, r) (combine dists radii) /\ 0 <= r /\ r < d /\
+    within_div0 (1#2) dists radii = true /\ within (1#2) dists radii = false /\ within 1 dists radii = false.
+Proof.
+  exists [0; 7#10], [1; 0], (7#10), 0. repeat split; try (vm_compute; reflexivity).
+  - right. left. reflexivity.
+  - discriminate.
+Qed.
+
+(* the list forms: within = no patch refused *)
+Lemma within_is_patchwise rtol dists radii :
+  within rtol dists radii = forallb (fun dr => negb (patch_refused (fst dr) (snd dr) rtol)) (combine dists radii).
+Proof.
+  unfold within, patch_refused. induction (combine dists radii) as [|dr l IH]; simpl; [reflexivity|].
+  rewrite negb_involutive, IH. reflexivity.
+Qed.
+
+Theorem within_zero_radius rtol dists radii d r :
+  within rtol dists radii = true -> In (d, r) (combine dists radii) -> r == 0 -> d <= 0.
+Proof.
+  intros H Hin Hr. apply (proj1 (within_spec _ _ _) H) in Hin. simpl in Hin.
+  rewrite Hr, Qmult_0_r in Hin. exact Hin.
+Qed.
+
+(* the guard of two catalogs refuses a displaced partner of a zero-radius patch, whatever rtol and the other radii are *)
+Theorem guard_refuses_zero_radius ids1 ids2 dists radii rtol d r :
+  In (d, r) (combine dists radii) -> r == 0 -> 0 < d -> guard ids1 ids2 dists radii rtol = false.
+Proof.
+  intros Hin Hr Hd. destruct (guard ids1 ids2 dists radii rtol) eqn:E; [|reflexivity].
+  rewrite guard_is_within in E. apply andb_true_iff in E as [_ E].
+  exfalso. apply (Qlt_not_le _ _ Hd). eapply within_zero_radius; eassumption.
+Qed.
+
+Theorem check_fixed_zero_radius rtol radii others :
+  check_fixed rtol radii others = true -> zero_radius_aligned radii others = true.
+Proof.
+  unfold check_fixed, zero_radius_aligned. rewrite !forallb_forall. intros H d Hd.
+  specialize (H d Hd). apply forallb_forall. intros [x r] Hin.
+  simpl. destruct (Qeqb r 0) eqn:Er; [|reflexivity]. simpl.
+  apply Qeqb_eq in Er. apply Qleb_le. eapply within_zero_radius; eassumption.
+Qed.
+
+(* any number of catalogs: acceptance implies the degenerate clause for the reference the code selects *)
+Theorem guard_many_zero_ok cats dt rtol : guard_many cats dt rtol = true -> guard_zero_ok cats dt = true.
+Proof.
+  unfold guard_many, guard_many_by, guard_zero_ok. intros H. apply andb_true_iff in H as [_ H].
+  destruct (check_order g_nrec cats) as [|ref others]; [reflexivity|].
+  unfold guard_ref in H. eapply check_fixed_zero_radius. exact H.
+Qed.
+
+(* hence an accepted call never trips flag 16 of the degenerate checker unless model and code disagree *)
+Theorem guardd_case_sound cats dt :
+  guard_many cats dt (1#2) = true -> c12_guardd_case cats dt true = c12_guardn_case cats dt true.
+Proof.
+  intros H. unfold c12_guardd_case. rewrite (guard_many_zero_ok _ _ _ H).
+  rewrite orb_true_r. apply Nat.add_0_r.
+Qed.
